@@ -152,6 +152,9 @@ func parseSubstituteArgs(f slip.Object, s *slip.Scope, args slip.List, depth int
 	if v, ok := slip.GetArgsKeyValue(kargs, slip.Symbol(":test")); ok {
 		sr.tc = ResolveToCaller(s, v, depth)
 	}
+	if v, ok := slip.GetArgsKeyValue(kargs, slip.Symbol(":test-not")); ok {
+		sr.tc = notCaller{Caller: ResolveToCaller(s, v, depth)}
+	}
 	if v, ok := slip.GetArgsKeyValue(kargs, slip.Symbol(":from-end")); ok {
 		sr.rev = v != nil
 	}
